@@ -1,5 +1,5 @@
 SPECIFICATION Spec
 CONSTANTS
   Alphabet = {0, 1, 64, 128, 255}
-INVARIANTS POSymmetric POCapped CmpIsIntegerOrder CmpAntisymmetric CmpZeroIffEqual POOrdersDistance DistZero DistSymmetric
+INVARIANTS POSymmetric POCapped CmpIsIntegerOrder CmpDecidedAtCommonPrefix CmpAntisymmetric CmpZeroIffEqual POOrdersDistance DistZero DistSymmetric
 CHECK_DEADLOCK FALSE
